@@ -667,6 +667,108 @@ func runC17(c *Ctx) {
 		}
 	}
 
+	// ------------------------------------------------------------ T8
+	c.Rule("C17.T8", "EXIT", "a transaction refused with an error gets no receipt and changes nothing — neither the state nor the block's gas pool: ApplyMessageEntry takes a state snapshot and the gas-pool level before preCheck, and the error it hands to its caller is non-nil only on paths that reverted to that snapshot and restored the pool. preCheck buys the gas (debit, pool) before the intrinsic-gas test, and the EVM converter raises the nonce before CanTransfer fails with \"insufficient balance for transfer\": without the revert the miner — which reverts the state itself but not its pool — leaks the gas limit of every such transaction, and direct callers see nonce and balance changed by a transaction that was refused")
+	c.Min(1)
+	{
+		ame := w.Fn("core", "StateProcessor", "ApplyMessageEntry")
+		c.sawFunc(fname(ame))
+		var snaps []ssa.Value
+		var reverts []ssa.CallInstruction
+		for _, ci := range callInstrs(ame) {
+			o := calleeObj(ci)
+			if o == nil {
+				continue
+			}
+			if o.Name() == "Snapshot" && ci.Value() != nil {
+				snaps = append(snaps, ci.Value())
+			}
+			if o.Name() == "RevertToSnapshot" {
+				reverts = append(reverts, ci)
+			}
+		}
+		// stores through the gas-pool parameter (or a setter on it)
+		var gp *ssa.Parameter
+		for _, prm := range ame.Params {
+			if nt, ok := deref(prm.Type()).(*types.Named); ok && nt.Obj().Name() == "GasPool" {
+				gp = prm
+			}
+		}
+		var poolRestores []ssa.Instruction
+		for _, in := range allInstrs(ame) {
+			if st, ok := in.(*ssa.Store); ok && gp != nil && stripConvNoBind(st.Addr) == ssa.Value(gp) {
+				poolRestores = append(poolRestores, st)
+			}
+			if ci, ok := in.(ssa.CallInstruction); ok && gp != nil {
+				if o := calleeObj(ci); o != nil && (o.Name() == "SetGas" || o.Name() == "AddGas") && callRecv(ci) != nil && stripConvNoBind(callRecv(ci)) == ssa.Value(gp) {
+					poolRestores = append(poolRestores, ci.(ssa.Instruction))
+				}
+			}
+		}
+		c.sites++
+		why := ""
+		var goodReverts []ssa.Instruction
+		for _, rv := range reverts {
+			for _, a := range callArgs(rv) {
+				for _, sn := range snaps {
+					if derivesFrom(a, func(x ssa.Value) bool { return x == sn }) {
+						goodReverts = append(goodReverts, rv.(ssa.Instruction))
+					}
+				}
+			}
+		}
+		if len(goodReverts) == 0 {
+			why = "ApplyMessageEntry takes no snapshot that it reverts to"
+		} else if len(poolRestores) == 0 {
+			why = "ApplyMessageEntry never restores the gas pool"
+		} else {
+			// the revert and the pool restore sit on the non-nil side of a test of the error that is returned
+			gated := func(ev ssa.Value) bool {
+				for _, g := range goodReverts {
+					for _, fa := range atomsOf(factsAt(g.Block())) {
+						if fa.Kind == "isnil" && !fa.Truth && stripConvNoBind(fa.X) == stripConvNoBind(ev) {
+							for _, pr := range poolRestores {
+								for _, fb := range atomsOf(factsAt(pr.Block())) {
+									if fb.Kind == "isnil" && !fb.Truth && stripConvNoBind(fb.X) == stripConvNoBind(ev) {
+										return true
+									}
+								}
+							}
+						}
+					}
+				}
+				return false
+			}
+			idx := errResultIdx(ame)
+			complete := enumPaths(ame, 4096, func(pr PathResult) {
+				ev := pr.Resolve(pr.Ret.Results[idx])
+				if cv, isC := ev.(*ssa.Const); isC && cv.IsNil() {
+					return
+				}
+				known := 0 // +1 nil, -1 non-nil
+				for _, a := range atomsOf(pr.Facts) {
+					if a.Kind == "isnil" && stripConvNoBind(a.X) == stripConvNoBind(ev) {
+						if a.Truth {
+							known = 1
+						} else {
+							known = -1
+						}
+					}
+				}
+				if known == 1 {
+					return // success path: nothing to undo
+				}
+				if !(known == -1 && gated(ev)) {
+					why = "the return at " + w.Pos(pr.Ret.Pos()) + " can hand an error to the caller on a path that did not revert the state and restore the gas pool"
+				}
+			})
+			if !complete && why == "" {
+				why = "the paths of ApplyMessageEntry could not be enumerated"
+			}
+		}
+		c.Check(fname(ame)+"#refused-means-unchanged", ame.Pos(), why == "", ifelse(why == "", "an error leaves ApplyMessageEntry only after RevertToSnapshot(snapshot) and the restore of the gas pool", why))
+	}
+
 	// ------------------------------------------------------------ T6
 	c.Rule("C17.T6", "NO-EFFECT-BEFORE", "a staking transaction that fails is charged its gas and nothing else: every registered staking handler (no snapshot surrounds them; a handler error marks the transaction failed but included) changes state only on its success tail — after the first state change (debit of the staked value, record, validator update) no error return is reachable. Shared with C09.J4")
 	c.Min(9)
